@@ -165,7 +165,7 @@ def make_instr(val, form=0):
 def assemble(instrs, name="__module__"):
     out = [b"f " + name.encode() + b"\0"]
     for opc, args in instrs:
-        line = bytes([opc])
+        line = bytes([tracecheck.real_byte(opc)])
         if args:
             line += b" " + " ".join(args).encode("utf-8")
         assert b"\0" not in line[1:], "NUL cannot be encoded"
@@ -368,14 +368,17 @@ def read_trace(text):
     events = []
     lines = text.split("\n")
     truncated = bool(lines and lines[-1] != "")
+    omap = {}
     for line in lines[:-1]:
         if not line:
             continue
         t = line[0]
-        if t == "I":
+        if t == "O":
+            tracecheck.o_record(line, omap)
+        elif t == "I":
             p = line.split(" ")
             if len(p) == 6:
-                events.append(("I", int(p[2]), int(p[3]), int(p[5])))
+                events.append(("I", int(p[2]), omap.get(int(p[3]), int(p[3])), int(p[5])))
         elif t == "L":
             m = _LREC.match(line)
             if not m:
@@ -957,7 +960,7 @@ def readable(prog):
         if rec[:2] == b"f " or rec == b"e":
             out.append(rec.decode("utf-8", "replace"))
         else:
-            out.append("%s%s" % (tracecheck.OPNAMES[rec[0]] if rec[0] < len(tracecheck.OPNAMES) else rec[0],
+            out.append("%s%s" % (tracecheck.opname(rec[0]),
                                  rec[1:].decode("utf-8", "replace")))
     return out
 
